@@ -1,5 +1,140 @@
-import U3.Model.Wire
+import U3.Lemmas.Wire
+/-!
+# C10 — no input can inject into or split the HTTP request on the wire
+
+`serialize` is the transcription of `HTTPConnection.request` (`U3.Model.Wire`), `strictParse` the
+independent permissive request-head parser.  Statements that do not hold of the code as it stands
+are kept as comments next to the `…_partial` theorem together with a proved negation witness.
+-/
 namespace U3.Props
 open U3 U3.Wire
-theorem C10_placeholder : (1:Nat) = 1 := rfl
+
+/-- a small configuration used by the non-vacuity examples and witnesses -/
+def c10cfg : Cfg := ⟨lit "h", 80, 80, 4, .ok [], .error .unicodeError⟩
+
+/-
+Full statement (Appendix E):  `serialize … = .error e → wireWritten … = []`.
+It does NOT hold: `str` pieces of a lazily consumed body (iterable, text file) are encoded while the
+body is being sent, after the head went out (`C10_fail_after_write_witness`).  What holds: every
+failure of the head phase — method / target / host / header validation, `SKIP_HEADER` misuse,
+encoding failures, `body_to_chunks` (str body) — leaves nothing written.
+-/
+theorem C10_fail_before_write_partial (cfg : Cfg) (meth url : Str) (hs : List (Str × Str)) (body : Body)
+    (ch : Bool) (e : Exc) (h : prepare cfg meth url hs body ch = .error e) :
+    serialize cfg meth url hs body ch = .error e ∧ wireWritten cfg meth url hs body ch = [] := by
+  simp [serialize, wireWritten, request, h]
+
+example : serialize c10cfg (lit "GET") (lit "/a b") [] .none false = .error .invalidURL := by decide
+example : serialize c10cfg (lit "GET") (lit "/") [(lit "X", [97, 13, 10, 98])] .none false = .error .valueError := by decide
+
+/-- negation witness for the full statement: the call fails after bytes were written -/
+theorem C10_fail_after_write_witness :
+    serialize c10cfg (lit "POST") (lit "/") [] (.iter [.str [97], .str [0xDC80]] false) false
+      = .error .unicodeEncodeError ∧
+    wireWritten c10cfg (lit "POST") (lit "/") [] (.iter [.str [97], .str [0xDC80]] false) false ≠ [] := by
+  decide
+
+/-
+Full statement: for every accepted input the permissive parser reads the bytes written back as
+exactly one request head with the requested method, the requested target (`url or '/'`) and the
+buffered header list (values up to optional white space at the edges, folds kept verbatim); what
+follows the blank line is exactly what the body phase wrote.  It needs `meth ≠ ""`: the token check
+is a *search* for a non-token character, so the empty method passes and the request line starts
+with a space (`C10_empty_method_witness`).
+-/
+theorem C10_one_request_partial (cfg : Cfg) (meth url : Str) (hs : List (Str × Str)) (body : Body) (ch : Bool)
+    (w : Bytes) (hm : meth ≠ []) (h : serialize cfg meth url hs body ch = .ok w) :
+    ∃ p, prepare cfg meth url hs body ch = .ok p ∧
+      strictParse w = some ⟨meth, urlOrSlash url, p.hdrs.map (fun h => (h.1, trimOWS h.2)), (bodyPhase p).written⟩ := by
+  unfold serialize request at h
+  cases hp : prepare cfg meth url hs body ch with
+  | error e => simp [hp] at h
+  | ok p =>
+    simp only [hp] at h
+    split at h
+    · simp at h
+    · simp at h
+      subst h
+      obtain ⟨hrl, hl⟩ := prepare_legal hp
+      exact ⟨p, rfl, strictParse_prepared p meth url hrl hl hm _⟩
+
+example : (serialize c10cfg (lit "GET") (lit "/") [(lit "X", [97, 13, 10, 32, 98])] .none false).toOption.isSome = true := by
+  decide
+
+theorem C10_empty_method_witness :
+    (serialize c10cfg [] (lit "/") [] .none false).toOption.isSome = true ∧
+    (serialize c10cfg [] (lit "/") [] .none false).toOption.bind strictParse = none := by
+  decide
+
+/-- accepted header lines can never break out of their line: every CR / LF inside a buffered header
+line is followed by SP / HTAB (a fold), and no line starts with white space -/
+theorem C10_header_lines_safe (cfg : Cfg) (meth url : Str) (hs : List (Str × Str)) (body : Body) (ch : Bool)
+    (p : Prepared) (h : prepare cfg meth url hs body ch = .ok p) :
+    ∀ l ∈ p.hdrs.map hdrLine, GoodLine l := by
+  intro l hl
+  simp only [List.mem_map] at hl
+  obtain ⟨hd, hh, rfl⟩ := hl
+  exact goodLine_hdr hd ((prepare_legal h).2 hd hh)
+
+/-
+Full statement: an accepted HTTP/2 field name consists of lower-case RFC 9113 token characters only
+and an accepted value has no NUL / CR / LF and no white space at its edges.  The name half does NOT
+hold: the pattern ends in `$`, which also matches before one trailing line feed
+(`C10_h2_trailing_lf_witness`).
+-/
+theorem C10_h2_header_validity_partial (name value : Str) (n v : Bytes) (h : h2Putheader name value = .ok (n, v)) :
+    (∀ c ∈ n, isH2NameC c = true ∨ c = 10) ∧ n ≠ [] ∧
+    (∀ c ∈ v, c ≠ 0 ∧ c ≠ 10 ∧ c ≠ 13) ∧ (∀ c, v.head? = some c → isWS c = false) ∧
+    (∀ c, v.getLast? = some c → isWS c = false) := by
+  unfold h2Putheader at h
+  split at h
+  · simp at h
+  · rename_i n0 hn0
+    split at h
+    · simp at h
+    · rename_i hname
+      split at h
+      · simp at h
+      · rename_i v0 hv0
+        split at h
+        · simp at h
+        · rename_i hval
+          simp only [Except.ok.injEq, Prod.mk.injEq] at h
+          obtain ⟨rfl, rfl⟩ := h
+          simp only [h2LegalName, Bool.not_eq_false, Bool.and_eq_true,
+            Bool.not_eq_true', List.all_eq_true] at hname
+          simp only [h2IllegalValue, Bool.not_eq_true, Bool.or_eq_false_iff, List.any_eq_false] at hval
+          obtain ⟨hne, hall⟩ := hname
+          obtain ⟨⟨hany, hhead⟩, hlast⟩ := hval
+          refine ⟨?_, ?_, ?_, ?_, ?_⟩
+          · intro c hc
+            by_cases hl : (lowerBytes n0).getLast? = some 10
+            · simp only [hl, if_true] at hall
+              have hd := dropLast_append_of_getLast? _ 10 hl
+              rw [← hd] at hc
+              simp only [List.mem_append, List.mem_singleton] at hc
+              rcases hc with hc | hc
+              · exact Or.inl (hall c hc)
+              · exact Or.inr hc
+            · simp only [hl, if_false] at hall
+              exact Or.inl (hall c hc)
+          · intro e
+            simp [e] at hne
+          · intro c hc
+            have := hany c hc
+            simp at this
+            omega
+          · intro c hc
+            simp only [hc] at hhead
+            simp [h2EdgeC] at hhead
+            simp [isWS]; omega
+          · intro c hc
+            simp only [hc] at hlast
+            simp [h2EdgeC] at hlast
+            simp [isWS]; omega
+
+example : h2Putheader (lit "X-A") (lit "v") = .ok (lit "x-a", lit "v") := by decide
+
+theorem C10_h2_trailing_lf_witness : h2Putheader [97, 10] [118] = .ok ([97, 10], [118]) := by decide
+
 end U3.Props
